@@ -1,4 +1,12 @@
-use std::{borrow::Cow, fmt, fmt::Debug, sync::Arc};
+use std::{
+    borrow::Cow,
+    fmt,
+    fmt::Debug,
+    sync::{
+        Arc,
+        atomic::{AtomicBool, Ordering},
+    },
+};
 
 use futures_util::{
     Future, FutureExt, Stream, StreamExt, TryStreamExt, future::BoxFuture, stream::BoxStream,
@@ -245,14 +253,20 @@ impl Subscription {
                         while let Some(value) = stream.next().await.transpose().map_err(|err| {
                             ctx_field.set_error_path(err.into_server_error(ctx_field.item.pos))
                         })? {
+                            // set when the event itself could not be resolved
+                            let failed = AtomicBool::new(false);
                             let f = |execute_data: Option<Data>| {
                                 let schema = schema.clone();
                                 let field_name = field_name.clone();
                                 let field_type = field_type.clone();
                                 let ctx_field = ctx_field.clone();
+                                let failed = &failed;
 
                                 async move {
+                                    // every event collects its own field errors
+                                    let query_env = ctx_field.query_env.with_separate_errors();
                                     let mut ctx_field = ctx_field.clone();
+                                    ctx_field.query_env = &query_env;
                                     ctx_field.execute_data = execute_data.as_ref();
                                     let ri = ResolveInfo {
                                         path_node: &QueryPathNode {
@@ -285,7 +299,7 @@ impl Subscription {
                                         .resolve(ri, &mut resolve_fut)
                                         .await;
 
-                                    match value {
+                                    let mut resp = match value {
                                         Ok(value) => {
                                             let mut map = IndexMap::new();
                                             map.insert(
@@ -294,8 +308,16 @@ impl Subscription {
                                             );
                                             Response::new(Value::Object(map))
                                         }
-                                        Err(err) => Response::from_errors(vec![err]),
-                                    }
+                                        Err(err) => {
+                                            failed.store(true, Ordering::Relaxed);
+                                            Response::from_errors(vec![err])
+                                        }
+                                    };
+                                    // errors of fields that were nulled in place
+                                    resp.errors.extend(std::mem::take(
+                                        &mut *query_env.errors.lock().unwrap(),
+                                    ));
+                                    resp
                                 }
                             };
                             let resp = ctx_field
@@ -303,9 +325,8 @@ impl Subscription {
                                 .extensions
                                 .execute(ctx_field.query_env.operation_name.as_deref(), f)
                                 .await;
-                            let is_err = !resp.errors.is_empty();
                             yielder.yield_ok(resp).await;
-                            if is_err {
+                            if failed.load(Ordering::Relaxed) {
                                 break;
                             }
                         }
